@@ -70,9 +70,9 @@ CLAIMS['C16'] = dict(
 CLAIMS['C12'] = dict(
     text='Exact real arithmetic over ALL surface parameters, positions and directions: QuadraticSolver contract (roots positive, on the quadratic, ascending, '
          'complete for |a|>=min_a); for every quadric type the coefficients handed to the solver satisfy f(pos+t dir)=a t^2+2(b/2)t+c for a free t and the '
-         'answer is passed through; planes directly; calc_sense = sign f; calc_normal = unit gradient; SurfaceTranslator (every overload) and '
-         'SurfaceTransformer(GeneralQuadric) preserve the point set. Found and fixed defect F2 (SimpleQuadric translation).',
-    note='Real-mode abstraction: algebraic correctness only (no rounding/cancellation/NaN); Involute, SurfaceSimplifier, remaining transformer overloads, '
+         'answer is passed through; planes directly; calc_sense = sign f; calc_normal = unit gradient; SurfaceTranslator (every overload), '
+         'SurfaceTransformer(GeneralQuadric and the CylAligned / ConeAligned / SimpleQuadric promotions) preserve the point set; transform_down(transform_up(x)) = x. Found and fixed defect F2 (SimpleQuadric translation).',
+    note='Real-mode abstraction: algebraic correctness only (no rounding/cancellation/NaN); Involute, SurfaceSimplifier, the Plane / Sphere transformer overloads (thorough tier only), '
          'SignedPermutation and the |a|<min_a regime are outside; QuadraticSolver entry points are cut to recorders for the coefficient identities.',
     technique=TECH_B + ' (real-arithmetic mode, QF_NRA, z3 nlsat)', design='3 (C12)')
 CLAIMS['C11'] = dict(
